@@ -21,6 +21,7 @@
 
 #include <stdexcept>
 #include <string>
+#include "verif_hook.h"
 
 namespace bloc
 {
@@ -39,6 +40,7 @@ public:
   const char * what() const noexcept override
   {
     static char buf[256];
+    BLOC_VERIF_POINT(BLOC_VP_ERRWHAT, buf);
     if (_message != nullptr)
       snprintf(buf, sizeof(buf), _message, _arg.c_str());
     else
